@@ -72,7 +72,7 @@ def gen(S, tier):
     mx = c.pick(MAXES)
     cfg = {
         "kind": kind,
-        "plain_formatter": c.chance(0.5),
+        "plain_formatter": c.chance(0.5), "plain_on_ansi_stream": c.chance(0.5), "late_style": c.chance(0.1),
         "verbosity": c.weighted([(0, 4), (1, 1), (2, 1), (4, 1)]),
         "max": mx,
         "min_interval": c.pick([0, 0, 0.1, 0.1, 0.5]),
@@ -145,7 +145,7 @@ def simplify(sc):
     simple = {"verbosity": 0, "bar_width": None, "bar_char": None, "empty_char": "-",
               "progress_char": ">", "redraw_freq": None, "max_interval": None,
               "min_interval_setter": None, "sentinels": 0, "sections_above": 0,
-              "sections_below": 0, "skew": False, "plain_formatter": False, "min_interval": 0, "real_stream": False, "term_env": None, "indent": 0}
+              "sections_below": 0, "skew": False, "plain_formatter": False, "plain_on_ansi_stream": False, "late_style": False, "min_interval": 0, "real_stream": False, "term_env": None, "indent": 0}
     for k, v in simple.items():
         if cfg.get(k) != v:
             c = dict(sc)
@@ -287,12 +287,16 @@ def _run(sc, cfg, res, clock, log, columns=200):
                 clock.advance_us(us)
                 res.fault("write_latency")
 
+    # what `--no-ansi` builds on a terminal: a stream that could do ANSI behind a formatter that vetoes it
+    stream_ansi = ansi or bool(not ansi and cfg["plain_formatter"] and cfg.get("plain_on_ansi_stream"))
+    if stream_ansi and not ansi:
+        res.probe("plain_formatter_on_ansi_capable_stream")
     if cfg.get("real_stream"):
         from ..realstream import RealStreamOutput, SimFile
-        stream = RealStreamOutput(SimFile("err", log, screen=screen, on_write=on_write), ansi)
+        stream = RealStreamOutput(SimFile("err", log, screen=screen, on_write=on_write), stream_ansi)
         res.probe("real_stream_output")
     else:
-        stream = SimOutputStream("err", log, ansi=ansi, screen=screen, on_write=on_write)
+        stream = SimOutputStream("err", log, ansi=stream_ansi, screen=screen, on_write=on_write)
     if not ansi and cfg["plain_formatter"]:
         fmtr = PlainFormatter()
     else:
@@ -332,6 +336,12 @@ def _run(sc, cfg, res, clock, log, columns=200):
     if cfg["bar_char"] is not None:
         bar.set_bar_character(cfg["bar_char"])
     bar.set_empty_bar_character(cfg["empty_char"])
+    if cfg.get("late_style"):
+        # a style registered on the formatter AFTER the output was built, used by the bar's own text
+        from clikit.api.formatter import Style
+        out.formatter.add_style(Style("late").fg("cyan").bold())
+        cfg = dict(cfg, progress_char="<late>></late>")
+        res.probe("style_added_after_construction")
     bar.set_progress_character(cfg["progress_char"])
     if cfg["redraw_freq"] is not None:
         bar.set_redraw_frequency(cfg["redraw_freq"])
